@@ -5,6 +5,8 @@ import (
 	"fmt"
 	"os"
 	"path/filepath"
+
+	"verif/harness/internal/fsckread"
 )
 
 // legacy describes a store in the legacy formats (version-2 single-file index,
@@ -19,6 +21,7 @@ type legacy struct {
 	Freed   []int `json:"freed"`
 	Pending bool  `json:"pending"`
 	Bits    int   `json:"bits"`
+	Lost    int   `json:"lost"` // the legacy primary lost its last n records (cut at a record boundary): keys whose current record is gone must be absent after the upgrade
 }
 
 // buildLegacy writes legacy files by building a current-format store with 1 GiB
@@ -93,6 +96,51 @@ func buildLegacy(root string, r *seqRun, lg *legacy) ([]int, error) {
 			return nil, err
 		}
 		os.WriteFile(filepath.Join(root, "index.free"), nil, 0o644)
+	}
+	if lg.Lost > 0 {
+		// cut the last records off the primary; index entries that name them must be dropped by the upgrade
+		p, err := fsckread.Read(root, "index", root, "data", false)
+		if err != nil {
+			return nil, err
+		}
+		if len(p.PF) == 1 && len(p.PF[0].Recs) > lg.Lost {
+			recs := p.PF[0].Recs
+			cut := recs[len(recs)-lg.Lost].Off
+			live := map[int64]bool{}
+			for _, s := range p.Snap {
+				live[s[1]] = true
+			}
+			for _, f := range p.IF {
+				for _, rec := range f.Recs {
+					if !live[rec.Pos] {
+						continue
+					}
+					for _, en := range rec.Ents {
+						if en.Off >= cut {
+							// which key is it?
+							for _, pr := range recs {
+								if pr.Pos == en.Off {
+									for i, dg := range r.digs {
+										if len(pr.Dig) == len(dg) {
+											same := true
+											for j := range dg {
+												same = same && int(dg[j]) == pr.Dig[j]
+											}
+											if same {
+												kv[i] = 0
+											}
+										}
+									}
+								}
+							}
+						}
+					}
+				}
+			}
+			if err := os.Truncate(filepath.Join(root, "data.0"), cut); err != nil {
+				return nil, err
+			}
+		}
 	}
 	idx0, err := os.ReadFile(filepath.Join(root, "index.0"))
 	if err != nil {
